@@ -174,7 +174,7 @@ thread_local! {
 pub fn with_scratch<R>(cfg: &WorldCfg, snap: &Snapshot, f: impl FnOnce(&mut World) -> R) -> R {
     TL_SCRATCH.with(|cell| {
         let mut slot = cell.borrow_mut();
-        if slot.is_none() {
+        if slot.as_ref().map_or(true, |w| w.users.len() != cfg.n_users) {
             *slot = Some(World::new(cfg));
         }
         let w = slot.as_mut().unwrap();
